@@ -408,6 +408,46 @@ func TestC06Dynamic(t *testing.T) {
 	}
 }
 
+// TestC06Arity: every function and aggregate called with 0 to 4 arguments of
+// several kinds, as a select field (alone and next to the key, grouped and not)
+// and inside WHERE: too few, too many or ill-typed arguments end in an error
+// value, never in an index out of range.
+func TestC06Arity(t *testing.T) {
+	lib.Stats.Exhaustive = true
+	fns := []string{"lower", "upper", "int", "float", "str", "is_int", "is_float", "substr", "split", "list", "float_list", "int_list",
+		"flist", "ilist", "join", "len", "strlen", "json", "l2_distance", "cosine_distance",
+		"count", "sum", "avg", "min", "max", "quantile", "group_concat", "json_arrayagg", "nosuchfn"}
+	pools := [][]string{
+		{"value", "key", "1", "'a'"},
+		{"1", "0.5", "','", "value"},
+		{"split(value, ',')", "2", "key", "list(1, 2)"},
+		{"int(value)", "'x'", "json(value)", "true"},
+	}
+	idx := 0
+	for _, fn := range fns {
+		for n := 0; n <= 4; n++ {
+			for _, pool := range pools {
+				call := fn + "(" + strings.Join(pool[:n], ", ") + ")"
+				for _, q := range []string{
+					"select " + call + " where key != ''",
+					"select key, " + call + " as f where key != '' group by key",
+					"select key where str(" + call + ") != 'q'",
+					"select " + call + " as f, count(1) where key != '' group by f order by f limit 3",
+				} {
+					idx++
+					if !lib.Mine(idx) {
+						continue
+					}
+					c06Run(t, &c06Case{Query: q, Pairs: lib.FixedHostileStore(idx % 6)}, true, "arity", fmt.Sprintf("nargs=%d", n))
+				}
+				if n == 0 {
+					break // the pools only differ in their arguments
+				}
+			}
+		}
+	}
+}
+
 // TestC06NameGraph: select lists whose fields name each other in every way a
 // small pool of names allows - a name defined by itself, through another name,
 // defined twice (the first definition counts), used in WHERE, ORDER BY and
